@@ -37,7 +37,7 @@ func (p *propC18) ProbeNames() []string {
 
 func (p *propC18) Prepare(seed uint64, tier string) int {
 	p.seed, p.tier = seed, tier
-	p.count = 60000
+	p.count = 300000
 	if isThorough(tier) {
 		p.count = 2000000
 	}
@@ -257,13 +257,13 @@ func accumCheck(f *fit.File, ft byte, msgs []ModelMsg, st *Stats) []Violation {
 	}
 	acc := newAccState()
 	type series struct {
-		name       string
-		want, obs  []uint32
-		raw        []uint32
-		bits       uint
-		wrapProbe  string
-		lastRaw    uint32
-		haveRaw    bool
+		name      string
+		want, obs []uint32
+		raw       []uint32
+		bits      uint
+		wrapProbe string
+		lastRaw   uint32
+		haveRaw   bool
 	}
 	ss := []*series{
 		{name: "Distance", bits: 12, wrapProbe: "12-bit wrap"},
